@@ -3,9 +3,12 @@ package checks
 import (
 	"bytes"
 	"crypto/sha256"
+	"encoding/hex"
 	"encoding/json"
 	"fmt"
 	"os"
+	"sort"
+	"strings"
 	"time"
 
 	servertypes "github.com/cosmos/cosmos-sdk/server/types"
@@ -133,6 +136,35 @@ func c18Import(c *vc.Ctx, lh *lockHist, exp servertypes.ExportedApp, viol func(s
 		}
 	}
 	c.Count("re_exports_compared", 1)
+	// the raw module stores: everything the running chain keeps - exported items and the indices and queues derived
+	// from them (power ranking, stake index, threshold list, validator set record, key registry) - must be there again
+	for _, mod := range []string{"relayer", "bitcoin", "locking", "goat"} {
+		a, errA := lh.ch.Node().DumpStore(mod, false)
+		b, errB := n.DumpStore(mod, true)
+		if errA != nil || errB != nil {
+			c.Inconclusive("store dump %s: %v %v", mod, errA, errB)
+			continue
+		}
+		c.Eval(1)
+		var diffs []string
+		for k, v := range a {
+			if w, ok := b[k]; !ok {
+				diffs = append(diffs, fmt.Sprintf("prefix %s: key %s only on the source chain", k[:min(2, len(k))], k))
+			} else if w != v && !(mod == "relayer" && k == "05" && sameVoterQueue(v, w)) {
+				diffs = append(diffs, fmt.Sprintf("prefix %s: key %s: source %s imported %s", k[:min(2, len(k))], k, v, w))
+			}
+		}
+		for k := range b {
+			if _, ok := a[k]; !ok {
+				diffs = append(diffs, fmt.Sprintf("prefix %s: key %s only on the imported chain", k[:min(2, len(k))], k))
+			}
+		}
+		sort.Strings(diffs)
+		if len(diffs) > 0 {
+			viol("the imported chain's store differs from the source chain's: "+mod+" "+diffs[0][:9], fmt.Sprintf("export at height %d (%v): %d differing keys, first: %s", exp.Height-1, traits, len(diffs), strings.Join(diffs[:min(3, len(diffs))], "; ")))
+		}
+		c.Count("module_stores_compared", 1)
+	}
 	// keep running: 20 blocks with the locking workload and the invariant monitors
 	ch := world.ChainFromExport(w, n, exp, now)
 	ih := &lockHist{c: c, cfg: lh.cfg, r: world.NewRand(c.Seed, "c18-continue", int(exp.Height)), ch: ch, unlocks: map[uint64]*unlockRec{}, claims: map[uint64]*claimRec{}, absentRun: map[int]int{}, tokens: lh.tokens}
@@ -288,6 +320,27 @@ func firstDiff(a, b string) string {
 		return len(s)
 	}
 	return fmt.Sprintf("first export ...%s... | second ...%s...", a[lo:hi(a)], b[lo:hi(b)])
+}
+
+// sameVoterQueue compares the relayer's boarding queue as two sets: the import rebuilds it from the voters' statuses,
+// and the statement asks derived queues to satisfy the same invariants, not to keep their order.
+func sameVoterQueue(a, b string) bool {
+	dec := func(h string) (*relayertypes.VoterQueue, bool) {
+		raw, err := hex.DecodeString(h)
+		if err != nil {
+			return nil, false
+		}
+		var q relayertypes.VoterQueue
+		if err := q.Unmarshal(raw); err != nil {
+			return nil, false
+		}
+		sort.Strings(q.OnBoarding)
+		sort.Strings(q.OffBoarding)
+		return &q, true
+	}
+	qa, ok1 := dec(a)
+	qb, ok2 := dec(b)
+	return ok1 && ok2 && strings.Join(qa.OnBoarding, ",") == strings.Join(qb.OnBoarding, ",") && strings.Join(qa.OffBoarding, ",") == strings.Join(qb.OffBoarding, ",")
 }
 
 func c18History(c *vc.Ctx, idx int) {
